@@ -578,3 +578,59 @@ def scoping_programs(export=("ExportJson", "ExportProvn")):
                     p.append([e, "0"])
                 out.append(p)
     return out
+
+
+def value_grid_programs(export=("ExportJson", "ExportProvn")):
+    """fixed programs: the systematic family attribute class x value kind x scope — one record with one attribute each,
+    on an element and on an identified relation, at document level (with and without a default namespace) and in a
+    bundle with its own default namespace"""
+    D1, D2, EXU, ZZ = "http://default.test/", "http://d2.test/", "http://example.org/", "http://zz.test/"
+    XSDU = "http://www.w3.org/2001/XMLSchema#"
+
+    def values(dflt):
+        vs = [["str", x] for x in ["", "plain", "prov:Person", "  x ", "a\nb", "ünï \U0001F600", "1", "true"]]
+        vs += [["int", x] for x in ["0", "-5", str(2 ** 70)]]
+        vs += [["bool", "true"], ["bool", "false"]]
+        vs += [I.sx_value(x) for x in [0.5, 1e300, -0.0]]
+        vs += [["time"] + list(t) for t in TIMES[:3]]
+        vs += [["id", x] for x in ["http://u/x", "prov:weird", "urn:x", "xsd:int"]]
+        vs += [["qn", "ex", EXU, "v"], ["qn", "prov", PROV, "Person"], ["qn", "xsd", XSDU, "int"], ["qn", "zz", ZZ, "q"]]
+        vs += [["lit", "hi", "none", ["some", "en"]], ["lit", "", "none", ["some", "fr-CA"]]]
+        vs += [["lit", "x", ["qn", "ex", EXU, "T"], "none"], ["lit", "x", ["qn", "zz", ZZ, "T"], "none"],
+               ["lit", "tok", ["qn", "xsd", XSDU, "token"], "none"], ["lit", "5", ["qn", "xsd", XSDU, "int"], "none"],
+               ["lit", "abc", ["qn", "xsd", XSDU, "dateTime"], "none"], ["lit", "yes", ["qn", "xsd", XSDU, "boolean"], "none"],
+               ["lit", "0.5", ["qn", "xsd", XSDU, "double"], "none"], ["lit", "http://u/y", ["qn", "xsd", XSDU, "anyURI"], "none"]]
+        if dflt:
+            vs += [["qn", "", dflt, "dv"], ["lit", "x", ["qn", "", dflt, "DT"], "none"]]
+        return vs
+
+    def attrs(dflt, relation):
+        out = [["S", "ex:k"], ["Q", "prov", PROV, "type"], ["S", "prov:location"], ["Q", "prov", PROV, "label"]]
+        out.append(["Q", "prov", PROV, "role"] if relation else ["Q", "prov", PROV, "value"])
+        if dflt:
+            out.append(["Q", "", dflt, "dk"])
+        return out
+    progs_ = []
+    for ctx in ("plain", "default", "bundle"):
+        for relation in (False, True):
+            dflt = None if ctx == "plain" else (D1 if ctx == "default" else D2)
+            for a in attrs(dflt, relation):
+                head = [["NewDoc"], ["AddNs", ["d", "0"], "ex", EXU]]
+                if ctx != "plain":
+                    head.append(["SetDefault", ["d", "0"], D1])
+                c = ["d", "0"]
+                if ctx == "bundle":
+                    head += [["NewBundle", "0", ["S", "ex:b"]], ["SetDefault", ["b", "0", "0"], D2]]
+                    c = ["b", "0", "0"]
+                ops = list(head)
+                for i, v in enumerate(values(dflt)):
+                    if relation:
+                        ops.append(["NewRecord", c, "Usage", ["S", "ex:u%d" % i],
+                                    [[["Q", "prov", PROV, "activity"], ["str", "ex:a"]], [["Q", "prov", PROV, "entity"], ["str", "ex:e"]],
+                                     [a, v]]])
+                    else:
+                        ops.append(["NewRecord", c, "Entity", ["S", "ex:e%d" % i], [[a, v]]])
+                for e in export:
+                    ops.append([e, "0"])
+                progs_.append(ops)
+    return progs_
